@@ -151,6 +151,16 @@ def engine_oracle(engines, check_align=False):
             n = int(ikv["jitcode"].split(".")[0]); p1, buf = (int(x) for x in ikv["jitsizing"].split("."))
             if p1 != n: return "the JIT's size-only first pass counted %d bytes but the second pass emitted %d: the buffer is sized from the first" % (p1, n)
             if buf < n or buf != (max(n, 4096) + 4095) // 4096 * 4096: return "the JIT's code buffer (%d bytes) is not the page-rounded size of the %d bytes emitted" % (buf, n)
+        # second execution on the same VM with a shorter packet (again=L): the interpreter as the model of that second
+        # execution, every engine as the interpreter (in claim)
+        if mkv.get("againsem") is not None:
+            if ikv.get("again") is not None and ikv["again"] != mkv["againsem"]:
+                return "second execution on the same VM (packet cut to %s bytes): the interpreter gives '%s' where the model of that execution gives '%s'" % (fields(line).get("again"), ikv["again"], mkv["againsem"])
+            if mkv.get("claim2") == "in" and mkv.get("claim") == "in":
+                for e in engines:
+                    v2 = ikv.get(e + "2")
+                    if v2 is not None and v2 != mkv["againsem"]:
+                        return "second execution on the same VM (packet cut to %s bytes): %s gives '%s' where the interpreter gives '%s'" % (fields(line).get("again"), e, v2, mkv["againsem"])
         for e in engines:
             val = ikv.get(e)
             if val is None: continue
@@ -237,11 +247,12 @@ PROPS = {
         trusted=EXEC_TRUST + ["Cranelift 0.127 IR semantics and its code generator (the theorems are about the IR-level model EngineSem)"],
     ),
     "C08": dict(
-        suites=["exec-engines#helpers,engrandom,context", "exec-random"], oracle=engine_oracle(["jit", "clif"], check_align=True), level="proof", model_is_spec=True,
+        suites=["exec-engines#helpers,engrandom,context", "exec-random", "api"], oracle=engine_oracle(["jit", "clif"], check_align=True), level="proof", model_is_spec=True,
         nontrivial=lambda line, impl: "log=0:" not in impl and impl.split()[0] in ("ok",) or impl.startswith("err:unknown-helper"),
         rule="suites exec-engines (helper-contract programs: ids 0, 1, 2^31-1, 2^31, 2^32-1 registered or not, call sites at local-call depth 0..3, arguments set per depth, r6..r9 folded after the call, "
              "ldabs after the call; random programs with several helper calls) + exec-random on the interpreter. The instrumented helpers log (function, a1..a5) and their entry rsp; compared: the log "
              "(count, order, arguments), r0, r6..r9 (folded), rsp alignment at helper entry, compile-time refusal of unregistered ids by both compilers, run-time error by the interpreter. "
+             "Suite api ('the function registered under k' after any history): random API histories in which an id is registered again under a different function, before and after compilation, on the four VM kinds and three engines. "
              "Non-trivial: distinct program that called a helper (or hit the unknown-helper error).",
         trusted=EXEC_TRUST + ["the helper-entry stack pointer is observed by an assembly trampoline in the harness"],
     ),
@@ -251,6 +262,7 @@ PROPS = {
         rule="suite exec-engines#context: 4 VM kinds x 3 engines x packet lengths {0,1,8,64,1500} x (data_offset,data_end_offset) in {(0,8),(8,0),(0x40,0x50),(0x50,0x40),(0,4096),(65528,0),(16,24)} "
              "x metadata present/absent; probes: r1 null-ness, stack writable at r10-8 and r10-512, first byte through r1, first/last packet byte through ldabs and ldind, fixed-metadata slots "
              "(end - start = len, first and last byte through the slots); plus random programs per kind. The fixed-metadata buffer's real address is learnt by a probe program. "
+             "Successive executions: every probe is executed a second time on the same VM and the same buffer with the packet cut to half its length (again=), under each engine. "
              "Non-trivial: distinct configuration x probe that ran to a value.",
         trusted=EXEC_TRUST,
     ),
